@@ -33,7 +33,8 @@ def run(ctx):
               "unshard", "aggregate", "next_message", "finish_sketch", "compute_next_corr_shares", "init_prng", "domain_separation_tag",
               "gen_with_random", "gen", "eval", "eval_from_node", "eval_next", "generate_correction_word", "extend", "convert",
               "is_agg_param_valid", "try_from_prefixes", "prefix", "zero", "merge", "accumulate")
-    run_api_ppa(ctx, "R-C03.T", ppa, scope, 25, only=lambda f: f.file in POPLAR_FILES and (f.name in honest or (f.kind == "Closure")))
+    newh = set(x.did for x in getattr(prog, "unknown_helpers", []))   # helpers extracted from the honest path after the rules were written
+    run_api_ppa(ctx, "R-C03.T", ppa, scope, 20, only=lambda f: f.file in POPLAR_FILES and (f.name in honest or f.kind == "Closure" or f.did in newh))
 
     # ------------- stream positions
     rule = "R-C03.P"
